@@ -384,6 +384,9 @@ def run(tier, replay=None):
     run_mirror(chk, F)
     run_rep_slots(chk, F)
     run_lazy_discipline(chk, F)
+    run_nullness(chk, F)
+    run_signatures(chk, F)
+    run_aliasing(chk, F)
     chk.assumptions += ['clang 14 parser; template patterns', 'tables/c09.json']
     return chk
 
@@ -504,3 +507,191 @@ def run_lazy_discipline(chk, F):
 
 def _all_text(n):
     return ' ; '.join(ir.show(x) for x in ir.walk(n) if x.get('k') not in ('CompoundStmt',))
+
+
+# ------------------------------------------------------------------ R9 nullable pointers (E12)
+
+GENERAL_FILES = ('Base_matrix.h', 'Base_matrix_with_column_compression.h', 'base_swap.h', 'matrix_row_access.h',
+                 '/columns/')
+
+
+def general_matrix_classes(F):
+    by = {}
+    seen = set()
+    for f in F.functions:
+        if f.get('inst') not in (0, 2) or f.get('body') is None:
+            continue
+        c = f.get('cls') or f.get('friendof')
+        if not c or not any(g in f['file'] for g in GENERAL_FILES):
+            continue
+        key = (f['file'], f['line'], f['name'])
+        if key in seen:
+            continue
+        seen.add(key)
+        by.setdefault(c, []).append(f)
+    return by
+
+
+def run_nullness(chk, F):
+    """R9: pointers the class itself treats as nullable (results of member functions with a `return nullptr` path,
+    elements of containers that receive `= nullptr`) are never dereferenced, member-accessed or handed to the pool's
+    destroy on a path on which they can be null (gsa/nullness.py: forward dataflow with branch refinement)."""
+    from gsa import nullness
+    by = general_matrix_classes(F)
+    n_cls = n_sinks = 0
+    for c, fns in sorted(by.items()):
+        res, stats = nullness.analyse_class(fns)
+        if not stats['nullable_calls'] and not stats['nullable_fields']:
+            continue
+        n_cls += 1
+        n_sinks += stats['sinks']
+        cname = c.split('::')[-1]
+        for f, fs, sinks in res:
+            where = '%s:%d' % (rel(f['file']), f['line'])
+            # a member that cannot be instantiated has no behaviour: Base_matrix_with_column_compression::operator=
+            # calls reserve() on a boost::intrusive::set (no such member), so any use fails to compile. The exemption
+            # lapses with that call.
+            dead = cname == 'Base_matrix_with_column_compression' and f['name'] == 'operator=' and ir.contains(
+                f['body'], lambda y: ir.is_call(y) and ir.call_name(y) == 'reserve' and
+                'columnToRep_' in ir.show(y))
+            if sinks == 0 and not fs:
+                continue
+            if dead:
+                chk.count('R9 members skipped because they cannot be instantiated', 1)
+                continue
+            if not fs:
+                chk.ob('E12-nullness', '%s::%s: %d uses of nullable pointers are dominated by a non-null fact'
+                       % (cname, f['name'], sinks), where, True, '', key='E12|%s::%s' % (cname, f['name']))
+            for x in fs:
+                chk.ob('E12-nullness', '%s::%s: %s of `%s`' % (cname, f['name'], x.kind, x.key),
+                       '%s:%s' % (rel(f['file']), x.line), False,
+                       '`%s` %s on this path (%s) and is used by %s' % (
+                           x.key, 'is null' if x.state == 'N' else 'may be null', 'the class stores nullptr in '
+                           'this container' if '[' in x.key else 'the function it comes from has a `return nullptr` '
+                           'path', x.text), key='E12|%s::%s|%s|%s' % (cname, f['name'], x.key, x.kind.split(' ')[0]))
+    chk.count('R9 classes with nullable pointers', n_cls)
+    chk.count('R9 uses of nullable pointers checked', n_sinks)
+    chk.expect_count('E12-nullness', 'classes with nullable pointers', n_cls, 2)
+    chk.expect_count('E12-nullness', 'uses of nullable pointers', n_sinks, 40)
+
+
+# ------------------------------------------------------------------ R10 sibling signatures (E7c)
+
+def run_signatures(chk, F):
+    """R10: the column containers are interchangeable: every public operation that all of them offer takes the same
+    parameter types (the class's own name normalised). A sibling that declares another parameter type converts its
+    argument differently (Field_element is bool over Z_2: `column *= 2` became `column *= true`)."""
+    import re
+    by = {}
+    classes = set()
+    for f in F.functions:
+        cn = f.get('clsname') or ''
+        if f.get('inst') not in (0, 2) or cn not in COLUMNS or '/columns/' not in f['file']:
+            continue
+        if f['name'].startswith('_') or f['name'].startswith('~') or f.get('kind') in (
+                'ctor', 'copy_ctor', 'move_ctor', 'default_ctor', 'dtor'):
+            continue
+        classes.add(cn)
+        sig = tuple(re.sub(r'\b%s\b(<[^<>]*>)?' % re.escape(cn), 'SELF', (p_.get('t') or ''))
+                    for p_ in f['params'])
+        by.setdefault(f['name'], {}).setdefault(cn, set()).add(sig)
+    if len(classes) < 8:
+        raise AnalysisBroken('C09: only %d column classes found' % len(classes))
+    n = 0
+    for name, d in sorted(by.items()):
+        if len(d) < len(classes):
+            continue
+        n += 1
+        sets = {}
+        for cn, sigs in d.items():
+            sets.setdefault(frozenset(sigs), []).append(cn)
+        ok = len(sets) == 1
+        detail = ''
+        key = 'E7c|%s' % name
+        if not ok:
+            major = max(sets.items(), key=lambda kv: len(kv[1]))
+            minority = [(cn, sorted(sg)) for sg, cns in sets.items() if sg != major[0] for cn in cns]
+            detail = '%s declare(s) %s where the other %d classes declare %s' % (
+                ', '.join('%s %s' % (cn, ['(%s)' % ', '.join(x) for x in sg]) for cn, sg in minority),
+                name, len(major[1]), ['(%s)' % ', '.join(x) for x in sorted(major[0])])
+            key = 'E7c|%s|%s' % (name, '+'.join(sorted(cn for cn, _ in minority)))
+        chk.ob('E7c-signatures', 'all %d column classes declare %s with the same parameter types'
+               % (len(classes), name), 'src/Persistence_matrix/include/gudhi/Persistence_matrix/columns', ok, detail,
+               key=key)
+    chk.expect_count('E7c-signatures', 'operations shared by all column classes', n, 15)
+
+
+# ------------------------------------------------------------------ R11 aliasing of source and target (E2g)
+
+ALIAS_OPS = ('operator+=', 'multiply_target_and_add', 'multiply_source_and_add')
+
+
+def run_aliasing(chk, F):
+    """R11: a column cannot be read while it is modified. In the two base matrices, an addition whose source and
+    target are both looked up in the same matrix may receive the same object for both (equal indices; in the
+    compressed matrix: two indices of one class). Every such call is (a) in a branch guarded by a decision that
+    looks at both the source and the target, or (b) reaches column operations that all test `&column == this`."""
+    cols = [f for f in F.functions if f.get('inst') in (0, 2) and (f.get('clsname') or '') in COLUMNS and
+            f['name'] in ALIAS_OPS and f.get('body') is not None]
+
+    def self_test(f):
+        return ir.contains(f['body'], lambda y: y.get('k') in ('BinaryOperator', 'CXXOperatorCallExpr') and
+                           y.get('op') in ('==', '!=') and 'this' in ir.show(y) and '&' in ir.show(y))
+    columns_safe = bool(cols) and all(self_test(f) for f in cols)
+    n = 0
+    for cname in ('Base_matrix', 'Base_matrix_with_column_compression'):
+        fns = [f for f in F.functions if f.get('clsname') == cname and f.get('inst') in (0, 2) and
+               f.get('body') is not None and f['name'] in ('add_to', 'multiply_target_and_add_to',
+                                                            'multiply_source_and_add_to')]
+        if len(fns) < 3:
+            raise AnalysisBroken('C09: addition functions of %s not found' % cname)
+        for f in fns:
+            params = [p_['n'] for p_ in f['params']]
+            src = [p_ for p_ in params if 'source' in p_.lower()]
+            tgt = [p_ for p_ in params if 'target' in p_.lower()]
+            if len(src) != 1 or len(tgt) != 1:
+                raise AnalysisBroken('C09: source/target parameters of %s::%s not identified' % (cname, f['name']))
+            src, tgt = src[0], tgt[0]
+            # locals derived from the target index
+            derived = {tgt}
+            for x in ir.walk(f['body']):
+                if x.get('k') == 'VarDecl' and x.get('init') is not None and any(
+                        d in [y.get('n') for y in ir.walk(x['init']) if y.get('k') == 'DeclRefExpr'] for d in derived):
+                    derived.add(x['n'])
+            par = ir.parents(f['body'])
+            sites = []
+            for x in ir.walk(f['body']):
+                if not (ir.is_call(x) or x.get('k') == 'CompoundAssignOperator'):
+                    continue
+                nm = 'operator+=' if x.get('k') == 'CompoundAssignOperator' and x.get('op') == '+=' else \
+                    (ir.call_name(x) if ir.is_call(x) else None)
+                if nm not in ALIAS_OPS and not (x.get('k') == 'CXXOperatorCallExpr' and x.get('op') == '+='):
+                    continue
+                names = [y.get('n') for y in ir.walk(x) if y.get('k') == 'DeclRefExpr']
+                # the source operand is itself a lookup by index in this matrix
+                lookup = [y for y in ir.walk(x) if ir.is_call(y) and ir.call_name(y) in ('get_column', '_get_column')
+                          and any(z.get('n') == src for z in ir.walk(y) if z.get('k') == 'DeclRefExpr')]
+                if not lookup or not any(d in names for d in derived):
+                    continue
+                sites.append(x)
+            if not sites:
+                raise AnalysisBroken('C09: no column operation with a looked-up source in %s::%s' % (cname, f['name']))
+            for x in sites:
+                n += 1
+                guarded = False
+                cur = x
+                while id(cur) in par:
+                    up = par[id(cur)]
+                    if up.get('k') == 'IfStmt' and not up.get('constexpr') and cur is not up.get('cond'):
+                        t = [y.get('n') for y in ir.walk(up.get('cond')) if y.get('k') == 'DeclRefExpr']
+                        if src in t and any(d in t for d in derived):
+                            guarded = True
+                    cur = up
+                ok = guarded or columns_safe
+                chk.ob('E2g-alias', '%s::%s: the column operation at line %s cannot receive one column as source '
+                       'and target' % (cname, f['name'], x.get('l')), '%s:%s' % (rel(f['file']), x.get('l')), ok,
+                       '' if ok else 'source `%s` and target `%s` are both looked up in this matrix and may designate '
+                       'the same column; no decision compares them and the column operations do not test '
+                       '`&column == this`: the column is iterated while it is modified' % (src, tgt),
+                       key='E2g|%s::%s|alias' % (cname, f['name']))
+    chk.expect_count('E2g-alias', 'column operations with a looked-up source', n, 6)
